@@ -82,7 +82,7 @@ def run_case(case, env):
         for op in case.get('ops', OPS):
             out['evals'] += 1
             set_knobs(logging=case.get('log', False) and op == 'dfa_hopfcroft')
-            st, val, ticks = call(env, getattr(da, op), D, budget=(12_000_000 if len(case['spec']['Q']) > 25 else 2_000_000))
+            st, val, ticks = call(env, getattr(da, op), D, budget=(60_000_000 if len(case['spec']['Q']) > 25 else 20_000_000))
             set_knobs(logging=False)
             out['ticks'] += ticks
             after = snapshot(D)
